@@ -30,6 +30,7 @@ import (
 	"strconv"
 	"strings"
 	"sync"
+	"sync/atomic"
 	"testing"
 	"time"
 	"unicode"
@@ -1066,6 +1067,12 @@ type memRWC struct {
 	eof    bool
 	out    bytes.Buffer
 	closed bool
+	// split > 1: a Writer that forwards the bytes of one Write call in that many pieces and promises
+	// nothing about concurrent calls (legal for an io.Writer: a chunking / framing / compressing
+	// adapter, a bufio.Writer); between two pieces it lets another Write call get into the stream
+	split  int
+	active atomic.Int32 // Write calls under way
+	pieces atomic.Int32 // pieces put down so far
 }
 
 func newMemRWC() *memRWC {
@@ -1088,8 +1095,87 @@ func (m *memRWC) Read(p []byte) (int, error) {
 
 func (m *memRWC) Write(p []byte) (int, error) {
 	m.mu.Lock()
-	defer m.mu.Unlock()
-	return m.out.Write(p)
+	k := m.split
+	if k <= 1 {
+		defer m.mu.Unlock()
+		return m.out.Write(p)
+	}
+	m.mu.Unlock()
+	m.active.Add(1)
+	defer m.active.Add(-1)
+	n := len(p)
+	for i := 0; i < k; i++ {
+		m.mu.Lock()
+		m.out.Write(p[n*i/k : n*(i+1)/k])
+		m.mu.Unlock()
+		seen := m.pieces.Add(1)
+		if i+1 < k {
+			// park until another Write call has put a piece down, at most 2 ms (a caller that
+			// serialises its writers never lets a second call in: the time just passes)
+			for dl := time.Now().Add(2 * time.Millisecond); time.Now().Before(dl); {
+				if m.pieces.Load() != seen {
+					break
+				}
+				time.Sleep(20 * time.Microsecond)
+			}
+		}
+	}
+	return n, nil
+}
+
+// concurrentWrites: every message is written by a goroutine of its own, all released together, to a
+// connection whose stream forwards each Write in k pieces. Observed: the LINES of the stream afterwards,
+// sorted (which writer comes first is the scheduler's choice): each as the JSON value it is, or `!<hex>`.
+func (w *ioWorld) concurrentWrites(k int, msgs []jsonrpc.Message) string {
+	w.rwc.takeOut()
+	w.rwc.mu.Lock()
+	w.rwc.split = k
+	w.rwc.mu.Unlock()
+	var wg sync.WaitGroup
+	start := make(chan struct{})
+	res := make([]string, len(msgs))
+	for i, m := range msgs {
+		wg.Add(1)
+		go func() {
+			defer wg.Done()
+			defer func() {
+				if r := recover(); r != nil {
+					res[i] = "panic"
+				}
+			}()
+			<-start
+			if err := w.front.Write(context.Background(), m); err != nil {
+				res[i] = "write-error"
+			}
+		}()
+	}
+	close(start)
+	wg.Wait()
+	w.rwc.mu.Lock()
+	w.rwc.split = 0
+	w.rwc.mu.Unlock()
+	for _, r := range res {
+		if r != "" {
+			return r
+		}
+	}
+	b := w.rwc.takeOut()
+	var lines []string
+	for len(b) > 0 {
+		var l []byte
+		if i := bytes.IndexByte(b, '\n'); i >= 0 {
+			l, b = b[:i], b[i+1:]
+		} else {
+			l, b = b, nil
+		}
+		if v, err := parseJSON(l); err == nil && len(bytes.TrimSpace(l)) == len(l) && !bytes.ContainsAny(l, "\r") {
+			lines = append(lines, v.tok())
+		} else {
+			lines = append(lines, "!"+hx(l))
+		}
+	}
+	sort.Strings(lines)
+	return strings.TrimSpace(fmt.Sprintf("cw %d %s", len(lines), strings.Join(lines, " ")))
 }
 
 func (m *memRWC) Close() error {
@@ -1118,20 +1204,56 @@ func (m *memRWC) takeOut() []byte {
 	return b
 }
 
+// lockedBuf: the destination of a LoggingTransport's log
+type lockedBuf struct {
+	mu sync.Mutex
+	b  bytes.Buffer
+}
+
+func (l *lockedBuf) Write(p []byte) (int, error) {
+	l.mu.Lock()
+	defer l.mu.Unlock()
+	return l.b.Write(p)
+}
+
+func (l *lockedBuf) take() []byte {
+	l.mu.Lock()
+	defer l.mu.Unlock()
+	b := append([]byte(nil), l.b.Bytes()...)
+	l.b.Reset()
+	return b
+}
+
+// fixedTransport hands out one prepared connection (what LoggingTransport.Connect delegates to)
+type fixedTransport struct{ c Connection }
+
+func (t fixedTransport) Connect(context.Context) (Connection, error) { return t.c, nil }
+
 type ioWorld struct {
 	rwc     *memRWC
 	conn    *ioConn
+	front   Connection // what the ops call: conn itself, or the LoggingTransport's connection around it
+	log     *lockedBuf // non-nil: front is a logging connection writing here
 	pending int  // frames fed and not yet taken by Read
 	eofFed  bool // the input side has been closed after the fed frames
 	eofSeen bool // Read has returned the stream's end: the reader goroutine is gone
 }
 
-func (w *ioWorld) reset(outCap int) {
+func (w *ioWorld) reset(outCap int, logging bool) {
 	if w.conn != nil {
 		w.conn.Close()
 	}
 	w.rwc = newMemRWC()
 	w.conn = newIOConn(w.rwc)
+	w.front, w.log = w.conn, nil
+	if logging {
+		w.log = &lockedBuf{}
+		c, err := (&LoggingTransport{Transport: fixedTransport{w.conn}, Writer: w.log}).Connect(context.Background())
+		if err != nil {
+			panic(err)
+		}
+		w.front = c
+	}
 	if outCap > 0 {
 		w.conn.outgoingBatch = make([]jsonrpc.Message, 0, outCap)
 	}
@@ -1547,8 +1669,44 @@ func (w *wireWorld) apply(op string) (obs string) {
 		return "x" + hx(b)
 	case "io.new":
 		n, _ := strconv.Atoi(p.next())
-		w.io.reset(n)
+		w.io.reset(n, p.next() == "log")
 		return "ok"
+	case "io.log":
+		// what the LoggingTransport wrote since the last io.log: one entry per line
+		if w.io.log == nil {
+			return "bad-op"
+		}
+		b := w.io.log.take()
+		var out []string
+		for len(b) > 0 {
+			var l []byte
+			if i := bytes.IndexByte(b, '\n'); i >= 0 {
+				l, b = b[:i], b[i+1:]
+			} else {
+				l, b = b, nil
+				out = append(out, "!"+hx(l)) // an unterminated line
+				break
+			}
+			entry := func(kind string, payload []byte) string {
+				if v, err := parseJSON(payload); err == nil {
+					return kind + " " + v.tok()
+				}
+				return "!" + hx(l)
+			}
+			switch {
+			case bytes.HasPrefix(l, []byte("read: ")):
+				out = append(out, entry("r", l[len("read: "):]))
+			case bytes.HasPrefix(l, []byte("write: ")):
+				out = append(out, entry("w", l[len("write: "):]))
+			case bytes.HasPrefix(l, []byte("read error: ")):
+				out = append(out, "re")
+			case bytes.HasPrefix(l, []byte("write error: ")):
+				out = append(out, "we")
+			default:
+				out = append(out, "!"+hx(l))
+			}
+		}
+		return strings.TrimSpace(fmt.Sprintf("log %d %s", len(out), strings.Join(out, " ")))
 	case "io.feed":
 		v, layout, ok := p.frameArg()
 		if !ok || w.io.conn == nil || w.io.eofFed || layout == 3 {
@@ -1594,7 +1752,7 @@ func (w *wireWorld) apply(op string) (obs string) {
 		}
 		rctx, rcancel := context.WithTimeout(context.Background(), 10*time.Second)
 		defer rcancel()
-		msg, err := c.Read(rctx)
+		msg, err := w.io.front.Read(rctx)
 		if err != nil && rctx.Err() != nil {
 			return "hang"
 		}
@@ -1602,13 +1760,27 @@ func (w *wireWorld) apply(op string) (obs string) {
 			return fmt.Sprintf("err %s q%d", readErrTok(err), len(c.queue))
 		}
 		return fmt.Sprintf("msg %s q%d", msgTok(msg), len(c.queue))
+	case "io.cw":
+		k, _ := strconv.Atoi(p.next())
+		var msgs []jsonrpc.Message
+		for !p.done() {
+			m, ok := p.message()
+			if !ok {
+				return "bad-op"
+			}
+			msgs = append(msgs, m)
+		}
+		if w.io.conn == nil || k < 1 || len(msgs) == 0 {
+			return "bad-op"
+		}
+		return guarded(20*time.Second, func() string { return w.io.concurrentWrites(k, msgs) })
 	case "io.write":
 		m, ok := p.message()
 		if !ok || w.io.conn == nil {
 			return "bad-op"
 		}
 		w.io.rwc.takeOut()
-		if err := w.io.conn.Write(context.Background(), m); err != nil {
+		if err := w.io.front.Write(context.Background(), m); err != nil {
 			return "write-error"
 		}
 		return writtenTok(w.io.rwc.takeOut())
@@ -1973,7 +2145,17 @@ func (g *ioGen) run(step stepper) {
 	if r.Intn(12) == 0 {
 		outCap = 1 + r.Intn(3)
 	}
-	step(fmt.Sprintf("io.new %d", outCap))
+	// 1 case in 4: the connection behind a LoggingTransport (every message passes through it unchanged,
+	// and the log shows each as its encoding)
+	logging := r.Intn(4) == 0
+	if logging {
+		step(fmt.Sprintf("io.new %d log", outCap), "io:logging")
+	} else {
+		step(fmt.Sprintf("io.new %d", outCap))
+	}
+	if logging {
+		defer func() { step("io.log", "io:logging") }()
+	}
 	var used []jv
 	nFrames := 1 + r.Intn(4)
 	fed := 0
@@ -2041,6 +2223,12 @@ func (g *ioGen) run(step stepper) {
 		if r.Intn(8) == 0 {
 			choices = append(choices, "other")
 		}
+		if logging && r.Intn(10) == 0 {
+			choices = append(choices, "log")
+		}
+		if outCap == 0 && !logging && r.Intn(6) == 0 {
+			choices = append(choices, "concurrent")
+		}
 		if len(choices) == 0 {
 			if !eof {
 				choices = append(choices, "eof")
@@ -2080,6 +2268,45 @@ func (g *ioGen) run(step stepper) {
 			step("io.eof")
 			eof = true
 			canRead = true
+		case "log":
+			step("io.log", "io:logging")
+		case "concurrent":
+			// 2-4 goroutines write at the same time (the responses of concurrently handled calls, a
+			// notification, a call of our own) to a stream that takes each Write in 2-3 pieces
+			var ms []string
+			tags := []string{"write:concurrent"}
+			answered := map[string]bool{} // one answer per id in one op: which of two would fill the slot is the scheduler's choice
+			for i, n := 0, 2+r.Intn(3); i < n; i++ {
+				c := r.Intn(6)
+				var open []int // pending calls not answered in this op
+				for j, id := range g.pending {
+					if !answered[id] {
+						open = append(open, j)
+					}
+				}
+				switch {
+				case c < 2 && len(open) > 0:
+					j := open[r.Intn(len(open))]
+					id := g.pending[j]
+					answered[id] = true
+					g.pending = append(g.pending[:j], g.pending[j+1:]...)
+					ms = append(ms, "resp "+id+" o{ 74657874 s"+hxs(strings.Repeat("payload-", 1+r.Intn(40)))+" } -")
+					tags = append(tags, "cw:answer")
+				case c < 4:
+					g.nextID++
+					ms = append(ms, fmt.Sprintf("req - s6e6f74696679 o{ 736571 i%d }", g.nextID))
+					tags = append(tags, "cw:notification")
+				case c < 5:
+					g.nextID++
+					ms = append(ms, fmt.Sprintf("req i%d s70696e67 o{ }", 2000+g.nextID))
+					tags = append(tags, "cw:call")
+				default:
+					g.nextID++
+					ms = append(ms, fmt.Sprintf("resp i%d z -", 8000+g.nextID))
+					tags = append(tags, "cw:unrelated-response")
+				}
+			}
+			step(fmt.Sprintf("io.cw %d %s", 2+r.Intn(2), strings.Join(ms, " ")), tags...)
 		case "other":
 			switch r.Intn(3) {
 			case 0:
@@ -2220,6 +2447,30 @@ func TestVerifWireMcp(t *testing.T) {
 					step = newCase(fmt.Sprintf("pages-%s-%d-%d", strings.ReplaceAll(m, "/", "."), ps, n))
 					(&pgGen{r: r, step: step}).sweep(m, ps, n)
 				}
+			}
+		}
+		// the CompleteReference codec: every combination of type x name x uri
+		step = newCase("complete-reference")
+		for _, t := range refTypes {
+			for _, n := range []string{"", "p"} {
+				for _, u := range []string{"", "file:///x"} {
+					step(fmt.Sprintf("ref.rt s%s s%s s%s", hxs(t), hxs(n), hxs(u)), "ref:rt", "ref-type:x"+hxs(t))
+					mem := []jmem{{"type", jStr(t)}}
+					if n != "" {
+						mem = append(mem, jmem{"name", jStr(n)})
+					}
+					if u != "" {
+						mem = append(mem, jmem{"uri", jStr(u)})
+					}
+					step("ref.dec "+jObj(mem...).tok(), "ref:dec")
+				}
+			}
+		}
+		// a registry listed whole (the client's roots) after every kind of add / remove history
+		for _, n := range []int{0, 1, 2, 3} {
+			for _, first := range []bool{true, false} {
+				step = newCase(fmt.Sprintf("histories-roots-%d-%v", n, first))
+				(&pgGen{r: r, step: step}).histories("roots/list", n, first)
 			}
 		}
 		// frames that carry no message, through every reader of peer data, in every layout
@@ -2470,6 +2721,14 @@ func TestVerifWireMcp(t *testing.T) {
 				step("sse.lines "+ls, ltags...)
 				nd, ndtags := genNdStream(r, iog)
 				step("nd.split "+nd, ndtags...)
+			}
+			// the CompleteReference codec: a reference through marshal → unmarshal, a JSON value through
+			// unmarshal → marshal
+			{
+				t, n, u := refTypes[r.Intn(len(refTypes))], refNames[r.Intn(len(refNames))], refURIs[r.Intn(len(refURIs))]
+				step(fmt.Sprintf("ref.rt s%s s%s s%s", hxs(t), hxs(n), hxs(u)), "ref:rt", "ref-type:x"+hxs(t))
+				v, tags := genRefJSON(r)
+				step("ref.dec "+v.tok(), append([]string{"ref:dec"}, tags...)...)
 			}
 			// list results page by page on a real session
 			if c%verifN(4, 10) == 0 {
